@@ -501,6 +501,11 @@ var recSession = ev.New(prop, "sessions",
 		"non-trivial = a multi-frame or compressed message, a 16/64-bit length, or partial writes").
 	Require("multi-frame", "len16", "len64", "compressed", "partial-writes", "prepared", "json", "read-from", "negotiated", "not-negotiated", "server-speaks-first", "abandoned-writer", "partial-read", "idle-time-passes", "idle-after-handshake-timeout")
 
+// TestSideBySide: independent connections (each case = one client/server pair) on several goroutines at once.
+func TestSideBySide(t *testing.T) {
+	ev.Parallel(t, prop, "side-by-side", 4, 200, 64, genCase, func(c Case) error { _, e := runCase(c); return e })
+}
+
 func TestSessions(t *testing.T) {
 	ev.Rapid(t, "sessions", 5000, 100000, func(t *rapid.T) {
 		c := genCase(t)
@@ -581,14 +586,15 @@ func TestSizeSweep(t *testing.T) {
 }
 
 func replayers() map[string]ev.Replayer {
-	return map[string]ev.Replayer{"sessions": func(raw json.RawMessage) error {
+	f := func(raw json.RawMessage) error {
 		var c Case
 		if err := json.Unmarshal(raw, &c); err != nil {
 			return err
 		}
 		_, e := runCase(c)
 		return e
-	}}
+	}
+	return map[string]ev.Replayer{"sessions": f, "side-by-side": f}
 }
 
 func TestRegress(t *testing.T) { ev.Regress(t, prop, replayers()) }
